@@ -170,8 +170,18 @@ class FormatMachine(MachineBase):
             return "./" + rel
         return rel
 
+    def dest(self, target, op):
+        """the destination as it is handed to dump(): a str path (relative in runs with a current directory), an open handle,
+        or - for dumps that are expected to be refused - an os.PathLike naming the same file"""
+        t = self.arg(target)
+        if op.get("dest") == "pathlike" and op.get("_pathlike_ok") and isinstance(t, str):
+            import pathlib
+            CTX.probe("dump.destination_given_as_pathlike")
+            return pathlib.Path(t)
+        return t
+
     def do_dump(self, slot, target, op):
-        slot.obj.dump(self.arg(target))
+        slot.obj.dump(self.dest(target, op))
 
     def dump_via_handle(self, s, path, op):
         """dump(f) with f an open file object (the other documented kind of destination)"""
@@ -217,6 +227,9 @@ class FormatMachine(MachineBase):
         path = self.path(op)
         before = self.fs.get(path)
         verdict, why = (UNSPEC, "tainted") if s.tainted else self.validity(s)
+        if op.get("dest") == "pathlike":
+            # support for PathLike destinations is not documented: only the fate of the good copy under a REFUSED dump is judged
+            op = dict(op, _pathlike_ok=(verdict == INVALID and self.cfg.get("focus") == "C18"))
         # how much of what the generators produce lies inside the quantifiers (a generator that drifts into invalid or
         # unspecified content silently weakens every oracle behind it): reported with the reach probes
         CTX.probe("verdict.%s.%s" % (self.FORMAT, verdict if not s.tainted else "tainted"))
